@@ -2,6 +2,7 @@ import Hive.Proofs.SyncMutexWB
 import Hive.Proofs.SyncMutexDag
 import Hive.Proofs.SyncMutexWait
 import Hive.Gen.C17_Skel
+import Hive.Proofs.SyncMutexExec
 /-!
 # C17 — Starving/DAG mutexes: exclusion, no lost wake-up, condition waits
 
@@ -339,6 +340,19 @@ theorem C17_wait_iff_quiescent {v : Int} {scripts : List (List WOp)} {c : Cfg Mo
     (hr : Reach Wait.sys (Wait.initCfg v scripts) c) (hst : Stuck Wait.sys c) :
     ∀ t ∈ c.2, t.done ∨ ∃ op g, (t.pc = .parkI op g ∨ t.pc = .parkD op g) ∧ mustWait op c.1.value :=
   Wait.stuck_waiters (s := c.1) (ts := c.2) (Wait.inv_reach hr) hst
+
+/-! ## The executable oracle of the tie
+
+The driver answers `ok` for an observed quiescent state iff it is among the configurations computed by
+`Exec.quiescentFrom` from the configurations that explained the observations so far. -/
+
+/-- Everything the driver accepts as an admissible quiescent outcome (of any of the three protocol models,
+`S` = `sys`, `Dag.sys`, `Wait.sys`) is a configuration reachable in that model from one of the start
+configurations, in which no goroutine can move. -/
+theorem C17_driver_outcomes_reachable {σ τ κ : Type} (S : Sys σ τ) (key : Cfg σ τ → κ) [BEq κ]
+    (starts : List (Cfg σ τ)) (c : Cfg σ τ) (h : c ∈ (Exec.quiescentFrom S key starts).1) :
+    (∃ c0 ∈ starts, Reach S c0 c) ∧ Stuck S c :=
+  Exec.quiescentFrom_sound S key starts c h
 
 /-! ## Regenerated tie: the synchronisation skeletons the models were written against
 
